@@ -40,7 +40,8 @@ def streams(tier, rng, P, only=None, cases=None):
             if npar >= 2 and rng.random() < 0.2: args[rng.randrange(npar)] = ""
             call = call0 + ("(%s)" % ",".join(("{%s}" % a) if (a or rng.random() < 0.3) else "" for a in args) if npar else "")
             site = rng.choice(["%s", "%s", "[2 %s]", "Sub{ %s } r", "o5 %s v100", "#Outer={ %s r} #Outer"])
-            pre = rng.choice(["", "l8 ", "o4 v80 "])
+            # (also after declarations without an initial value: they leave nothing behind that a later call could pick up)
+            pre = rng.choice(["", "l8 ", "o4 v80 ", "INT NQ ", "STR XQ l8 ", "ARRAY AQ; ", "Int NQ; Str XQ; "])
             raw.append(dict(define=define, call=call, site=site, pre=pre, body=body, args=args))
         for i in range(n // 10):
             # texts that begin and end with the octave-once marks `"` / `` ` `` (MML commands, not quotation marks): as a whole argument and as
